@@ -194,6 +194,7 @@ Proof.
     now rewrite remove_ref_panicked.
   - apply cb_return_panicked.
   - destruct (Nat.eqb c 0); [reflexivity | apply (cancel_root_frame s c)].
+  - destruct (watch_step_spec s c) as [->|[x [y [_ [-> _]]]]]; reflexivity.
 Qed.
 
 Theorem never_panics k es : panicked (run repaired (init k) es) = false.
